@@ -53,29 +53,40 @@ Qed.
 
 (* ------------------------------------------------------------------ memory safety of the filling pass *)
 
-(* the filling pass did not leave the block, and the block keeps its size *)
-Definition safe (r : res mem) (m : mem) : Prop :=
-  r <> Err SegV /\ forall m', r = Ok m' -> mlen m' = mlen m.
+(* the filling pass did not leave the block, the block keeps its size, and every byte outside
+   [lo, hi) keeps its value (frame) *)
+Definition byte (m : mem) (i : Z) : Z := nth (Z.to_nat i) m 0.
+Definition safe (lo hi : Z) (r : res mem) (m : mem) : Prop :=
+  r <> Err SegV /\
+  forall m', r = Ok m' ->
+    mlen m' = mlen m /\ forall i, 0 <= i -> i < lo \/ hi <= i -> byte m' i = byte m i.
 
-Lemma safe_err e m : e <> SegV -> safe (Err e) m.
+Lemma safe_err lo hi e m : e <> SegV -> safe lo hi (Err e) m.
 Proof. intros H. split; [congruence|discriminate]. Qed.
 
-Lemma safe_ok m : safe (Ok m) m.
-Proof. split; [discriminate|]. intros m' E. inversion E. reflexivity. Qed.
+Lemma safe_ok lo hi m : safe lo hi (Ok m) m.
+Proof. split; [discriminate|]. intros m' E. inversion E. split; [reflexivity|auto]. Qed.
 
-Lemma safe_bind {A} (r : res A) (f : A -> res mem) m :
-  (forall e, r = Err e -> e <> SegV) -> (forall a, r = Ok a -> safe (f a) m) -> safe (bind r f) m.
+Lemma safe_weaken lo hi lo' hi' r m : lo' <= lo -> hi <= hi' -> safe lo hi r m -> safe lo' hi' r m.
+Proof.
+  intros H1 H2 (Hn & Hf). split; [exact Hn|]. intros m' E. destruct (Hf m' E) as (Hl & Hb).
+  split; [exact Hl|]. intros i Hi Hr. apply Hb; lia.
+Qed.
+
+Lemma safe_bind {A} lo hi (r : res A) (f : A -> res mem) m :
+  (forall e, r = Err e -> e <> SegV) -> (forall a, r = Ok a -> safe lo hi (f a) m) -> safe lo hi (bind r f) m.
 Proof.
   intros He Hok. destruct r as [a|e]; cbn [bind]; [apply Hok; reflexivity|].
   apply safe_err. apply He. reflexivity.
 Qed.
 
-Lemma safe_bind_mem (r : res mem) (f : mem -> res mem) m :
-  safe r m -> (forall m1, mlen m1 = mlen m -> safe (f m1) m1) -> safe (bind r f) m.
+Lemma safe_bind_mem lo hi (r : res mem) (f : mem -> res mem) m :
+  safe lo hi r m -> (forall m1, mlen m1 = mlen m -> safe lo hi (f m1) m1) -> safe lo hi (bind r f) m.
 Proof.
   intros (Hn & Hl) Hf. destruct r as [m1|e]; cbn [bind].
-  - specialize (Hl m1 eq_refl). destruct (Hf m1 Hl) as (H1 & H2). split; [exact H1|].
-    intros m' E. rewrite (H2 m' E). exact Hl.
+  - destruct (Hl m1 eq_refl) as (Hl1 & Hb1). destruct (Hf m1 Hl1) as (H1 & H2). split; [exact H1|].
+    intros m' E. destruct (H2 m' E) as (Hl2 & Hb2). split; [lia|].
+    intros i Hi Hr. rewrite Hb2, Hb1 by auto. reflexivity.
   - apply safe_err. congruence.
 Qed.
 
@@ -85,13 +96,33 @@ Proof. unfold mlen. rewrite app_length. lia. Qed.
 Lemma mlen_nonneg {A} (a : list A) : 0 <= mlen a.
 Proof. unfold mlen. lia. Qed.
 
-Lemma write_safe off bs m : 0 <= off -> off + mlen bs <= mlen m -> safe (write off bs m) m.
+Lemma nth_firstn_lt (m : mem) k i : (i < k)%nat -> (k <= length m)%nat -> nth i (firstn k m) 0 = nth i m 0.
+Proof.
+  intros Hi Hk. rewrite <- (firstn_skipn k m) at 2. rewrite app_nth1; [reflexivity|].
+  rewrite firstn_length. lia.
+Qed.
+
+Lemma nth_skipn_ge (m : mem) k j : (k <= length m)%nat -> nth j (skipn k m) 0 = nth (k + j) m 0.
+Proof.
+  intros Hk. rewrite <- (firstn_skipn k m) at 2. rewrite app_nth2; rewrite firstn_length; [|lia].
+  f_equal. lia.
+Qed.
+
+Lemma write_safe off bs m : 0 <= off -> off + mlen bs <= mlen m -> safe off (off + mlen bs) (write off bs m) m.
 Proof.
   intros Ho Hb. unfold write.
   destruct (Z.ltb_spec off 0); [lia|]. destruct (Z.ltb_spec (mlen m) (off + mlen bs)); [lia|]. cbn [orb].
-  split; [discriminate|]. intros m' E. inversion E; subst m'. clear E.
-  rewrite !mlen_app. unfold mlen in *. rewrite firstn_length, skipn_length. lia.
+  split; [discriminate|]. intros m' E. inversion E; subst m'. clear E. split.
+  - rewrite !mlen_app. unfold mlen in *. rewrite firstn_length, skipn_length. lia.
+  - intros i Hi Hr. unfold byte, mlen in *. destruct Hr as [Hr|Hr].
+    + rewrite app_nth1 by (rewrite firstn_length; lia). apply nth_firstn_lt; lia.
+    + rewrite app_nth2 by (rewrite firstn_length; lia). rewrite firstn_length.
+      rewrite app_nth2 by lia. rewrite nth_skipn_ge by lia. f_equal. lia.
 Qed.
+
+Lemma write_safe_in lo hi off bs m :
+  lo <= off -> 0 <= off -> off + mlen bs <= hi -> hi <= mlen m -> safe lo hi (write off bs m) m.
+Proof. intros. apply (safe_weaken off (off + mlen bs)); [lia|lia|]. apply write_safe; lia. Qed.
 
 Lemma le_bytes_len n z : 0 <= n -> mlen (le_bytes n z) = n.
 Proof. intros. unfold le_bytes, mlen. rewrite map_length, seq_length. lia. Qed.
@@ -153,16 +184,16 @@ Qed.
 (* items of an array, one after the other *)
 Lemma fill_items_safe rec isz : 0 <= isz ->
   forall l off m, 0 <= off -> off + isz * mlen l <= mlen m ->
-  (forall x off' m', 0 <= off' -> off' + isz <= mlen m' -> safe (rec off' x m') m') ->
-  safe (fill_items rec off isz l m) m.
+  (forall x off' m', 0 <= off' -> off' + isz <= mlen m' -> safe off' (off' + isz) (rec off' x m') m') ->
+  safe off (off + isz * mlen l) (fill_items rec off isz l m) m.
 Proof.
   intros Hi. induction l as [|x l IH]; intros off m Ho Hb Hrec; cbn [fill_items].
   - apply safe_ok.
   - assert (mlen (x :: l) = 1 + mlen l) by (unfold mlen; cbn [length]; lia).
     pose proof (mlen_nonneg l).
     apply safe_bind_mem.
-    + apply Hrec; nia.
-    + intros m1 E. apply IH.
+    + apply (safe_weaken off (off + isz)); [lia|nia|]. apply Hrec; nia.
+    + intros m1 E. apply (safe_weaken (off + isz) (off + isz + isz * mlen l)); [lia|nia|]. apply IH.
       * lia.
       * rewrite E. nia.
       * exact Hrec.
@@ -189,8 +220,9 @@ Lemma fill_array_safe rec item len cap off v m :
   (0 <= len -> cap = len) ->
   (len < 0 -> exists b, get_new_array_length (lsize item) v = Ok (cap, b)) ->
   off + lsize item * cap <= mlen m ->
-  (forall x off' m', 0 <= off' -> off' + lsize item <= mlen m' -> safe (rec off' x m') m') ->
-  safe (fill_array rec item len off v m) m.
+  (forall x off' m', 0 <= off' -> off' + lsize item <= mlen m' ->
+     safe off' (off' + lsize item) (rec off' x m') m') ->
+  safe off (off + lsize item * cap) (fill_array rec item len off v m) m.
 Proof.
   intros Hi Ho Hc Hfix Hflex Hb Hrec. unfold fill_array.
   destruct v as [z|e4 e8|b|c|l|kv|same data alen|a|]; try (apply safe_err; discriminate).
@@ -200,7 +232,7 @@ Proof.
     destruct ((0 <=? len) && (len <? mlen b)) eqn:Hlong; [apply safe_err; discriminate|].
     match goal with |- context [if ?c then Err ValueError else _] => destruct c end;
       [apply safe_err; discriminate|].
-    apply write_safe; [lia|]. pose proof (mlen_nonneg b).
+    apply write_safe_in; try lia. pose proof (mlen_nonneg b).
     destruct (Z.eqb_spec (mlen b) len) as [E|NE].
     + destruct (Z.leb_spec 0 len); [rewrite <- (Hfix ltac:(lia)) in E; lia|lia].
     + rewrite mlen_snoc. destruct (Z.leb_spec 0 len) as [Hl|Hl].
@@ -210,7 +242,7 @@ Proof.
     destruct (wide_char_item item) eqn:H1; [|apply safe_err; discriminate].
     cbv zeta. set (u := str_units (lsize item) c) in *.
     destruct ((0 <=? len) && (len <? mlen u)) eqn:Hlong; [apply safe_err; discriminate|].
-    apply write_safe; [lia|]. rewrite flat_map_le_len by lia. pose proof (mlen_nonneg u).
+    apply write_safe_in; try lia. rewrite flat_map_le_len by lia. pose proof (mlen_nonneg u).
     destruct (Z.eqb_spec (mlen u) len) as [E|NE].
     + destruct (Z.leb_spec 0 len); [rewrite <- (Hfix ltac:(lia)) in E; nia|lia].
     + rewrite mlen_snoc. destruct (Z.leb_spec 0 len) as [Hl|Hl].
@@ -218,14 +250,17 @@ Proof.
       * destruct (Hflex Hl) as (bb & E). unfold get_new_array_length in E. fold u in E. inversion E. nia.
   - (* list / tuple *)
     destruct ((0 <=? len) && (len <? mlen l)) eqn:Hlong; [apply safe_err; discriminate|].
-    apply fill_items_safe; try lia; [|exact Hrec]. pose proof (mlen_nonneg l).
-    destruct (Z.leb_spec 0 len) as [Hl|Hl].
-    + rewrite (Hfix Hl) in *. destruct (Z.ltb_spec len (mlen l)); [discriminate|]. nia.
-    + destruct (Hflex Hl) as (bb & E). cbn in E. inversion E. nia.
+    pose proof (mlen_nonneg l).
+    assert (Hl : mlen l <= cap).
+    { destruct (Z.leb_spec 0 len) as [Hl|Hl].
+      - rewrite (Hfix Hl) in *. destruct (Z.ltb_spec len (mlen l)); [discriminate|]. lia.
+      - destruct (Hflex Hl) as (bb & E). cbn in E. inversion E. lia. }
+    apply (safe_weaken off (off + lsize item * mlen l)); [lia|nia|].
+    apply fill_items_safe; try lia; [nia|exact Hrec].
   - (* cdata *)
     destruct same; [|apply safe_err; discriminate].
     destruct (Z.leb_spec 0 len) as [Hl|Hl].
-    + apply write_safe; [lia|]. rewrite (Hfix Hl) in *.
+    + apply write_safe_in; try lia. rewrite (Hfix Hl) in *.
       pose proof (firstn_mlen (len * lsize item) data ltac:(nia)). nia.
     + destruct (Hflex Hl) as (bb & E). discriminate E.
 Qed.
@@ -300,7 +335,7 @@ Proof. destruct t as [| |size var fs]; try reflexivity. cbn. intros ->. reflexiv
 
 Definition P (fuel : nat) : Prop := forall t off v m n,
   wf_type t = true -> 0 <= lsize t -> 0 <= off ->
-  need fuel t v = Ok n -> off + n <= mlen m -> safe (fill fuel t off v m) m.
+  need fuel t v = Ok n -> off + n <= mlen m -> safe off (off + n) (fill fuel t off v m) m.
 
 Lemma add_varsize_ok off isz len o o' :
   add_varsize_length off isz len o = Ok o' -> o <= o' /\ off + isz * len <= o'.
@@ -392,7 +427,7 @@ Qed.
    initialiser must not ask for more than ct_size, which is exactly what the item has *)
 Lemma guarded_item_safe f (IH : P f) item x off m :
   wf_type item = true -> 0 < lsize item -> 0 <= off -> off + lsize item <= mlen m ->
-  safe (bind (item_guard f item x) (fun _ => fill f item off x m)) m.
+  safe off (off + lsize item) (bind (item_guard f item x) (fun _ => fill f item off x m)) m.
 Proof.
   intros Hwf Hsz Ho Hb. unfold item_guard.
   destruct (agg_var item && negb (is_cdata x)) eqn:Eg; cbn [bind].
@@ -401,6 +436,7 @@ Proof.
     pose proof (size_struct_noseg f fs x size) as Hns.
     destruct (size_struct f fs x size) as [n|e] eqn:Es; cbn [bind]; [|apply safe_err; congruence].
     destruct (Z.ltb_spec size n); cbn [bind]; [apply safe_err; discriminate|].
+    apply (safe_weaken off (off + n)); [lia|lia|].
     apply (IH (LAgg size true fs) off x m n); auto; try (cbn; lia).
     cbn [need]. rewrite Ec. exact Es.
   - apply (IH item off x m (lsize item)); auto; try lia.
@@ -414,10 +450,11 @@ Lemma fill_field_safe f (IHf : forall f', (f' <= f)%nat -> P f') size var off m 
   (is_flex (lf_type fld) = true -> forall cap b,
      get_new_array_length (lsize (item_of (lf_type fld))) x = Ok (cap, b) -> 0 <= cap ->
      off + lf_off fld + lsize (item_of (lf_type fld)) * cap <= mlen m ->
-     safe (fill_field (fill f) off fld x m) m) /\
+     safe (off + lf_off fld) (off + lf_off fld + lsize (item_of (lf_type fld)) * cap)
+          (fill_field (fill f) off fld x m) m) /\
   (is_flex (lf_type fld) = false -> forall n, need f (lf_type fld) x = Ok n ->
      off + lf_off fld + n <= mlen m ->
-     safe (fill_field (fill f) off fld x m) m).
+     safe (off + lf_off fld) (off + lf_off fld + n) (fill_field (fill f) off fld x m) m).
 Proof.
   intros (Hwf & Hoff & Hpl & Hbf & Hv) Ho. unfold fill_field. split.
   - intros Hfl cap b Hg Hcap Hb. rewrite Hfl in *. destruct Hpl as (_ & _ & Hsh).
@@ -439,7 +476,7 @@ Proof.
       * apply (IHf f ltac:(lia) (LPrim k s) _ x m s); auto; try lia. cbn. apply Z.ltb_lt. exact Hwf.
       * apply safe_bind.
         -- intros e. apply conv_bitfield_err.
-        -- intros bs E. apply write_safe; [lia|]. rewrite (conv_bitfield_len _ _ _ _ _ _ _ Hwf E). lia.
+        -- intros bs E. pose proof (conv_bitfield_len _ _ _ _ _ _ _ Hwf E). apply write_safe_in; lia.
     + apply (IHf f ltac:(lia) (lf_type fld) _ x m n); auto; lia.
 Qed.
 
@@ -455,12 +492,13 @@ Section Loops.
   Variable fs0 : list lfield.
   Variable F : lfield -> pyval -> mem -> res mem.
   Variable m0 : mem.
+  Variables (lo hi : Z).
 
   (* every field's conversion is safe whatever the value: fixed-size structs *)
-  Hypothesis Fsafe : forall f x m', In f fs0 -> mlen m' = mlen m0 -> safe (F f x m') m'.
+  Hypothesis Fsafe : forall f x m', In f fs0 -> mlen m' = mlen m0 -> safe lo hi (F f x m') m'.
 
   Lemma simple_list l : forall fs m', incl fs fs0 -> mlen m' = mlen m0 ->
-    safe (struct_from_list F fs l m') m'.
+    safe lo hi (struct_from_list F fs l m') m'.
   Proof.
     induction l as [|x l IH]; intros fs m' Hi Hm; cbn [struct_from_list]; [apply safe_ok|].
     pose proof (skip_incl fs) as Hs. destruct (skip_ignored fs) as [|f fs']; [apply safe_err; discriminate|].
@@ -469,7 +507,7 @@ Section Loops.
     intros m1 E. apply IH; [|lia]. intros g Hg. apply Hi, Hs. right. exact Hg.
   Qed.
 
-  Lemma simple_dict kv : forall m', mlen m' = mlen m0 -> safe (struct_from_dict F fs0 kv m') m'.
+  Lemma simple_dict kv : forall m', mlen m' = mlen m0 -> safe lo hi (struct_from_dict F fs0 kv m') m'.
   Proof.
     induction kv as [|[k x] kv IH]; intros m' Hm; cbn [struct_from_dict]; [apply safe_ok|].
     destruct (if k <? 0 then None else nth_error fs0 (Z.to_nat k)) as [f|] eqn:E;
@@ -485,16 +523,17 @@ Section JointLoops.
   Variable G : lfield -> pyval -> Z -> res Z.              (* sizing pass, per field *)
   Variable F : lfield -> pyval -> mem -> res mem.          (* filling pass, per field *)
   Variable m0 : mem.
-  Variables (off lo : Z).
+  Variables (off lob : Z).
+  Variables (lo hi : Z).
 
   (* the sizing of a field only raises the size, and a block of at least that size makes the
      filling of the same field with the same value safe *)
-  Hypothesis GF : forall f x o o' m', In f fs0 -> lo <= o -> G f x o = Ok o' ->
-    o <= o' /\ (off + o' <= mlen m0 -> mlen m' = mlen m0 -> safe (F f x m') m').
+  Hypothesis GF : forall f x o o' m', In f fs0 -> lob <= o -> G f x o = Ok o' ->
+    o <= o' /\ (off + o' <= hi -> mlen m' = mlen m0 -> safe lo hi (F f x m') m').
 
-  Lemma joint_list l : forall fs opt m' n, incl fs fs0 -> lo <= opt -> mlen m' = mlen m0 ->
-    struct_from_list G fs l opt = Ok n -> off + n <= mlen m0 ->
-    opt <= n /\ safe (struct_from_list F fs l m') m'.
+  Lemma joint_list l : forall fs opt m' n, incl fs fs0 -> lob <= opt -> mlen m' = mlen m0 ->
+    struct_from_list G fs l opt = Ok n -> off + n <= hi ->
+    opt <= n /\ safe lo hi (struct_from_list F fs l m') m'.
   Proof.
     induction l as [|x l IH]; intros fs opt m' n Hi Hlo Hm Hs Hb; cbn [struct_from_list] in *.
     - inversion Hs. split; [lia|apply safe_ok].
@@ -503,16 +542,16 @@ Section JointLoops.
       destruct (G f x opt) as [o'|] eqn:Eg; cbn [bind] in Hs; [|discriminate].
       destruct (GF f x opt o' m' Hin Hlo Eg) as (Hle & Hsafe).
       assert (Hi' : incl fs' fs0) by (intros g Hg; apply Hi, Hsk; right; exact Hg).
-      assert (Hrest : forall m1, mlen m1 = mlen m0 -> o' <= n /\ safe (struct_from_list F fs' l m1) m1)
+      assert (Hrest : forall m1, mlen m1 = mlen m0 -> o' <= n /\ safe lo hi (struct_from_list F fs' l m1) m1)
         by (intros m1 E1; apply (IH fs' o' m1 n); auto; lia).
       destruct (Hrest m' Hm) as (Hon & _). split; [lia|].
       apply safe_bind_mem; [apply Hsafe; lia|].
       intros m1 E1. apply Hrest. lia.
   Qed.
 
-  Lemma joint_dict kv : forall opt m' n, lo <= opt -> mlen m' = mlen m0 ->
-    struct_from_dict G fs0 kv opt = Ok n -> off + n <= mlen m0 ->
-    opt <= n /\ safe (struct_from_dict F fs0 kv m') m'.
+  Lemma joint_dict kv : forall opt m' n, lob <= opt -> mlen m' = mlen m0 ->
+    struct_from_dict G fs0 kv opt = Ok n -> off + n <= hi ->
+    opt <= n /\ safe lo hi (struct_from_dict F fs0 kv m') m'.
   Proof.
     induction kv as [|[k x] kv IH]; intros opt m' n Hlo Hm Hs Hb; cbn [struct_from_dict] in *.
     - inversion Hs. split; [lia|apply safe_ok].
@@ -520,7 +559,7 @@ Section JointLoops.
       assert (Hin : In f fs0) by (destruct (k <? 0); [discriminate|eapply nth_error_In; exact E]).
       destruct (G f x opt) as [o'|] eqn:Eg; cbn [bind] in Hs; [|discriminate].
       destruct (GF f x opt o' m' Hin Hlo Eg) as (Hle & Hsafe).
-      assert (Hrest : forall m1, mlen m1 = mlen m0 -> o' <= n /\ safe (struct_from_dict F fs0 kv m1) m1)
+      assert (Hrest : forall m1, mlen m1 = mlen m0 -> o' <= n /\ safe lo hi (struct_from_dict F fs0 kv m1) m1)
         by (intros m1 E1; apply (IH o' m1 n); auto; lia).
       destruct (Hrest m' Hm) as (Hon & _). split; [lia|].
       apply safe_bind_mem; [apply Hsafe; lia|].
@@ -529,6 +568,50 @@ Section JointLoops.
 End JointLoops.
 
 (* ------------------------------------------------------------------ the induction *)
+
+(* the per-field obligations of the joint loops, for a var-sized struct *)
+Lemma var_field_step f (IHf : forall f', (f' <= f)%nat -> P f') size fs off (m : mem) n :
+  (forall x, In x fs -> field_wf size true x) -> 0 <= off -> size <= n -> off + n <= mlen m ->
+  forall fld x o o2 m', In fld fs -> size <= o ->
+    size_field (size_struct f) fld x o = Ok o2 ->
+    o <= o2 /\ (off + o2 <= off + n -> mlen m' = mlen m ->
+               safe off (off + n) (fill_field (fill f) off fld x m') m').
+Proof.
+  intros Hfs Ho Hsn Hb fld x o o2 m' Hin Hlo E.
+  destruct (fill_field_safe f IHf size true off m' fld x (Hfs fld Hin) Ho) as (S1 & S2).
+  pose proof (Hfs fld Hin) as (_ & Hoff & Hpl & _ & _).
+  unfold size_field in E. destruct (is_flex (lf_type fld)) eqn:Efl.
+  - destruct (get_new_array_length _ x) as [[cap b]|] eqn:Eg; cbn [bind fst] in E; [|discriminate].
+    apply add_varsize_ok in E. split; [lia|]. intros Hb2 Hm2.
+    eapply safe_weaken; [| |apply (S1 eq_refl cap b eq_refl)]; try lia.
+    eapply gnal_nonneg; exact Eg.
+  - destruct (agg_var (lf_type fld) && negb (is_cdata x)) eqn:Eav.
+    + destruct (size_struct f (agg_fields (lf_type fld)) x (lsize (lf_type fld))) as [sub|] eqn:Es;
+        cbn [bind] in E; [|discriminate].
+      apply add_varsize_ok in E. split; [lia|]. intros Hb2 Hm2.
+      eapply safe_weaken; [| |apply (S2 eq_refl sub)]; try lia.
+      rewrite andb_true_iff, negb_true_iff in Eav. destruct Eav as (Eav & Ecd).
+      destruct (lf_type fld) as [| |s2 v2 fs2]; try discriminate. cbn in Eav. subst v2.
+      cbn [need]. rewrite Ecd. exact Es.
+    + inversion E; subst o2. split; [lia|]. intros Hb2 Hm2.
+      eapply safe_weaken; [| |apply (S2 eq_refl (lsize (lf_type fld)))]; try lia.
+      destruct (lf_type fld) as [| |s2 v2 fs2]; try reflexivity.
+      cbn [need lsize]. destruct v2; [|reflexivity]. cbn in Eav. rewrite negb_false_iff in Eav.
+      rewrite Eav. reflexivity.
+Qed.
+
+Lemma fixed_field_step f (IHf : forall f', (f' <= f)%nat -> P f') size fs off (m : mem) :
+  (forall x, In x fs -> field_wf size false x) -> 0 <= off -> off + size <= mlen m ->
+  forall fld x m', In fld fs -> mlen m' = mlen m ->
+    safe off (off + size) (fill_field (fill f) off fld x m') m'.
+Proof.
+  intros Hfs Ho Hb fld x m' Hin Hm'. pose proof (Hfs fld Hin) as Hw.
+  pose proof Hw as (_ & Hoff & Hpl & _ & Hhv).
+  destruct (fill_field_safe f IHf size false off m' fld x Hw Ho) as (_ & S2).
+  destruct (is_flex (lf_type fld)) eqn:Efl; [destruct Hpl as (_ & Hc & _); discriminate|].
+  eapply safe_weaken; [| |apply (S2 eq_refl (lsize (lf_type fld)))]; try lia.
+  apply need_nonvar. destruct (agg_var (lf_type fld)); [discriminate (Hhv eq_refl)|reflexivity].
+Qed.
 
 Lemma P_all : forall N fuel, (fuel <= N)%nat -> P fuel.
 Proof.
@@ -541,13 +624,13 @@ Proof.
     + (* primitive *)
       cbn in Hneed. inversion Hneed; subst n. cbn [wf_type] in Hwf. apply Z.ltb_lt in Hwf.
       apply safe_bind; [intros e; apply conv_prim_err|].
-      intros bs E. apply write_safe; [lia|]. rewrite (conv_prim_len _ _ _ _ Hwf E). lia.
+      intros bs E. pose proof (conv_prim_len _ _ _ _ Hwf E). apply write_safe_in; lia.
     + (* array of known length *)
       cbn [lsize] in Hsz. destruct (Z.ltb_spec len 0); [lia|].
       cbn [need lsize] in Hneed. destruct (Z.ltb_spec len 0); [lia|]. inversion Hneed; subst n.
       cbn [wf_type] in Hwf. rewrite !andb_true_iff in Hwf. destruct Hwf as ((Hwi & Hisz) & _).
       apply Z.ltb_lt in Hisz.
-      apply (fill_array_safe _ item len len); try lia.
+      eapply safe_weaken; [| |apply (fill_array_safe _ item len len)]; try lia.
       intros x' off' m' Ho' Hb'. apply guarded_item_safe; auto; apply IHf; lia.
     + (* struct / union *)
       cbn [wf_type] in Hwf. rewrite andb_true_iff in Hwf. destruct Hwf as (Hs0 & Hfs).
@@ -556,98 +639,35 @@ Proof.
       assert (Hsize_n : size <= n).
       { cbn [need] in Hneed. destruct var; [|inversion Hneed; cbn; lia].
         destruct (is_cdata v); [inversion Hneed; lia|].
-        cbn [size_struct] in Hneed.
-        (* the sizing pass starts from ct_size and only grows *)
-        assert (Hm : forall fld x o o', size_field (size_struct f) fld x o = Ok o' -> o <= o').
-        { intros fld x o o'. unfold size_field.
-          destruct (is_flex (lf_type fld)).
-          - destruct (get_new_array_length _ x); cbn [bind]; [|discriminate].
-            intros E. apply add_varsize_ok in E. lia.
-          - destruct (agg_var (lf_type fld) && negb (is_cdata x)).
-            + destruct (size_struct f _ x _); cbn [bind]; [|discriminate].
-              intros E. apply add_varsize_ok in E. lia.
-            + intros E. inversion E. lia. }
-        destruct v; try discriminate; cbn [struct_from_object] in Hneed.
-        - refine (proj1 (joint_list fs (size_field (size_struct f)) (fun _ _ m => Ok m) m 0 size _ l fs size m n
-                          (incl_refl _) (Z.le_refl _) eq_refl Hneed _)).
-          + intros fld x o o' m' _ _ E. split; [eapply Hm; exact E|]. intros. apply safe_ok.
-          + pose proof (mlen_nonneg m). lia.
-        - refine (proj1 (joint_dict fs (size_field (size_struct f)) (fun _ _ m => Ok m) m 0 size _ l size m n
-                          (Z.le_refl _) eq_refl Hneed _)).
-          + intros fld x o o' m' _ _ E. split; [eapply Hm; exact E|]. intros. apply safe_ok.
-          + pose proof (mlen_nonneg m). lia. }
+        eapply size_struct_lower. exact Hneed. }
       destruct v as [z|e4 e8|b|c|l|kv|same data alen|a|];
         try (cbn [struct_from_object]; apply safe_err; discriminate).
       * (* positional *)
         cbn [struct_from_object].
         destruct var.
         -- cbn [need is_cdata size_struct struct_from_object] in Hneed.
-           refine (proj2 (joint_list fs (size_field (size_struct f)) (fill_field (fill f) off) m off size _
-                            l fs size m n (incl_refl _) (Z.le_refl _) eq_refl Hneed Hb)).
-           intros fld x o o' m' Hin Hlo E.
-           destruct (fill_field_safe f IHf size true off m' fld x (Hfs fld Hin) Ho) as (S1 & S2).
-           pose proof (Hfs fld Hin) as (_ & Hoff & Hpl & _ & _).
-           unfold size_field in E. destruct (is_flex (lf_type fld)) eqn:Efl.
-           ++ destruct (get_new_array_length _ x) as [[cap b]|] eqn:Eg; cbn [bind fst] in E; [|discriminate].
-              apply add_varsize_ok in E. split; [lia|]. intros Hb' Hm'.
-              apply (S1 eq_refl cap b eq_refl); [|lia].
-              eapply gnal_nonneg; exact Eg.
-           ++ destruct (agg_var (lf_type fld) && negb (is_cdata x)) eqn:Eav.
-              ** destruct (size_struct f (agg_fields (lf_type fld)) x (lsize (lf_type fld))) as [sub|] eqn:Es;
-                   cbn [bind] in E; [|discriminate].
-                 apply add_varsize_ok in E. split; [lia|]. intros Hb' Hm'.
-                 apply (S2 eq_refl sub); [|lia].
-                 rewrite andb_true_iff, negb_true_iff in Eav. destruct Eav as (Eav & Ecd).
-                 destruct (lf_type fld) as [| |s2 v2 fs2]; try discriminate. cbn in Eav. subst v2.
-                 cbn [need]. rewrite Ecd. exact Es.
-              ** inversion E; subst o'. split; [lia|]. intros Hb' Hm'.
-                 apply (S2 eq_refl (lsize (lf_type fld))); [|lia].
-                 destruct (lf_type fld) as [| |s2 v2 fs2]; try reflexivity.
-                 cbn [need lsize]. destruct v2; [|reflexivity]. cbn in Eav. rewrite negb_false_iff in Eav.
-                 rewrite Eav. reflexivity.
-        -- apply (simple_list fs (fill_field (fill f) off) m); [|apply incl_refl|reflexivity].
-           intros fld x m' Hin Hm'. pose proof (Hfs fld Hin) as Hw. pose proof Hw as (_ & Hoff & Hpl & _ & Hhv).
-           destruct (fill_field_safe f IHf size false off m' fld x Hw Ho) as (_ & S2).
-           destruct (is_flex (lf_type fld)) eqn:Efl; [destruct Hpl as (_ & Hc & _); discriminate|].
-           apply (S2 eq_refl (lsize (lf_type fld))); [|lia].
-           apply need_nonvar. destruct (agg_var (lf_type fld)); [discriminate (Hhv eq_refl)|reflexivity].
+           refine (proj2 (joint_list fs (size_field (size_struct f)) (fill_field (fill f) off) m off size
+                            off (off + n) _ l fs size m n (incl_refl _) (Z.le_refl _) eq_refl Hneed (Z.le_refl _))).
+           intros fld x o o2 m' Hin Hlo E.
+           apply (var_field_step f IHf size fs off m n); auto.
+        -- cbn [need lsize] in Hneed. inversion Hneed; subst n.
+           apply (simple_list fs (fill_field (fill f) off) m); [|apply incl_refl|reflexivity].
+           intros fld x m' Hin Hm'. apply (fixed_field_step f IHf size fs off m); auto.
       * (* by name *)
         cbn [struct_from_object].
         destruct var.
         -- cbn [need is_cdata size_struct struct_from_object] in Hneed.
-           refine (proj2 (joint_dict fs (size_field (size_struct f)) (fill_field (fill f) off) m off size _
-                            kv size m n (Z.le_refl _) eq_refl Hneed Hb)).
-           intros fld x o o' m' Hin Hlo E.
-           destruct (fill_field_safe f IHf size true off m' fld x (Hfs fld Hin) Ho) as (S1 & S2).
-           pose proof (Hfs fld Hin) as (_ & Hoff & Hpl & _ & _).
-           unfold size_field in E. destruct (is_flex (lf_type fld)) eqn:Efl.
-           ++ destruct (get_new_array_length _ x) as [[cap b]|] eqn:Eg; cbn [bind fst] in E; [|discriminate].
-              apply add_varsize_ok in E. split; [lia|]. intros Hb' Hm'.
-              apply (S1 eq_refl cap b eq_refl); [|lia].
-              eapply gnal_nonneg; exact Eg.
-           ++ destruct (agg_var (lf_type fld) && negb (is_cdata x)) eqn:Eav.
-              ** destruct (size_struct f (agg_fields (lf_type fld)) x (lsize (lf_type fld))) as [sub|] eqn:Es;
-                   cbn [bind] in E; [|discriminate].
-                 apply add_varsize_ok in E. split; [lia|]. intros Hb' Hm'.
-                 apply (S2 eq_refl sub); [|lia].
-                 rewrite andb_true_iff, negb_true_iff in Eav. destruct Eav as (Eav & Ecd).
-                 destruct (lf_type fld) as [| |s2 v2 fs2]; try discriminate. cbn in Eav. subst v2.
-                 cbn [need]. rewrite Ecd. exact Es.
-              ** inversion E; subst o'. split; [lia|]. intros Hb' Hm'.
-                 apply (S2 eq_refl (lsize (lf_type fld))); [|lia].
-                 destruct (lf_type fld) as [| |s2 v2 fs2]; try reflexivity.
-                 cbn [need lsize]. destruct v2; [|reflexivity]. cbn in Eav. rewrite negb_false_iff in Eav.
-                 rewrite Eav. reflexivity.
-        -- apply (simple_dict fs (fill_field (fill f) off) m); [|reflexivity].
-           intros fld x m' Hin Hm'. pose proof (Hfs fld Hin) as Hw. pose proof Hw as (_ & Hoff & Hpl & _ & Hhv).
-           destruct (fill_field_safe f IHf size false off m' fld x Hw Ho) as (_ & S2).
-           destruct (is_flex (lf_type fld)) eqn:Efl; [destruct Hpl as (_ & Hc & _); discriminate|].
-           apply (S2 eq_refl (lsize (lf_type fld))); [|lia].
-           apply need_nonvar. destruct (agg_var (lf_type fld)); [discriminate (Hhv eq_refl)|reflexivity].
+           refine (proj2 (joint_dict fs (size_field (size_struct f)) (fill_field (fill f) off) m off size
+                            off (off + n) _ kv size m n (Z.le_refl _) eq_refl Hneed (Z.le_refl _))).
+           intros fld x o o2 m' Hin Hlo E.
+           apply (var_field_step f IHf size fs off m n); auto.
+        -- cbn [need lsize] in Hneed. inversion Hneed; subst n.
+           apply (simple_dict fs (fill_field (fill f) off) m); [|reflexivity].
+           intros fld x m' Hin Hm'. apply (fixed_field_step f IHf size fs off m); auto.
       * (* same-type struct cdata: memcpy of ct_size bytes *)
         destruct same; [|cbn [struct_from_object]; apply safe_err; discriminate].
         destruct (Z.leb_spec 0 size); [|apply safe_err; discriminate].
-        apply write_safe; [lia|]. pose proof (firstn_mlen size data ltac:(lia)). lia.
+        pose proof (firstn_mlen size data ltac:(lia)). apply write_safe_in; lia.
 Qed.
 
 (* ------------------------------------------------------------------ ffi.new never writes outside its block *)
@@ -672,7 +692,7 @@ Proof.
     destruct (size_struct fuel fs init size) as [n|e] eqn:Es; cbn [bind]; [|congruence].
     destruct (MAX_ALLOC <? n); [discriminate|].
     pose proof (size_struct_lower _ _ _ _ _ Es).
-    assert (Hsafe : safe (fill fuel (LAgg size true fs) 0 init (zeros n)) (zeros n)).
+    assert (Hsafe : safe 0 (0 + n) (fill fuel (LAgg size true fs) 0 init (zeros n)) (zeros n)).
     { apply (P_all fuel fuel (le_n _) _ 0 init (zeros n) n); auto; try lia.
       - cbn [need]. destruct (is_cdata init) eqn:Ec; [|exact Es].
         destruct init; try discriminate. destruct fuel; cbn in Es; discriminate.
@@ -682,7 +702,7 @@ Proof.
     destruct (match init with VNone => true | _ => false end) eqn:Hnone;
       [destruct init; try discriminate Hnone; discriminate|].
     assert (Hhv : agg_var t = false) by (destruct (agg_var t); [discriminate Ev|reflexivity]).
-    assert (Hsafe : safe (fill fuel t 0 init (zeros datasize)) (zeros datasize)).
+    assert (Hsafe : safe 0 (0 + lsize t) (fill fuel t 0 init (zeros datasize)) (zeros datasize)).
     { apply (P_all fuel fuel (le_n _) t 0 init (zeros datasize) (lsize t)); auto; try lia.
       - apply need_nonvar. exact Hhv.
       - rewrite mlen_zeros. lia. }
@@ -704,14 +724,14 @@ Proof.
     destruct (SSIZE_MAX <? cap * lsize item); [discriminate|]. cbn [bind].
     destruct (MAX_ALLOC <? cap * lsize item); [discriminate|].
     pose proof (gnal_nonneg _ _ _ _ Eg) as Hcap.
-    assert (Hsafe : safe (fill fuel (LArr item len) 0 init (zeros (cap * lsize item))) (zeros (cap * lsize item))).
+    assert (Hsafe : safe 0 (0 + lsize item * cap) (fill fuel (LArr item len) 0 init (zeros (cap * lsize item))) (zeros (cap * lsize item))).
     { destruct fuel as [|f]; [apply safe_err; discriminate|]. cbn [fill].
       apply (fill_array_safe _ item len cap); try lia; eauto.
       - rewrite mlen_zeros. nia.
       - intros x off2 m2 Ho2 Hb2. apply guarded_item_safe; auto. apply (P_all f f (le_n _)). }
     destruct init; try (exact (proj1 Hsafe)); discriminate.
   - cbn [bind]. destruct (MAX_ALLOC <? len * lsize item); [discriminate|].
-    assert (Hsafe : safe (fill fuel (LArr item len) 0 init (zeros (len * lsize item))) (zeros (len * lsize item))).
+    assert (Hsafe : safe 0 (0 + len * lsize item) (fill fuel (LArr item len) 0 init (zeros (len * lsize item))) (zeros (len * lsize item))).
     { apply (P_all fuel fuel (le_n _) (LArr item len) 0 init _ (len * lsize item)); auto; try lia.
       - cbn [lsize]. destruct (Z.ltb_spec len 0); [lia|nia].
       - cbn [need lsize]. destruct (Z.ltb_spec len 0); [lia|reflexivity].
@@ -730,7 +750,80 @@ Qed.
 Theorem assign_safe fuel t off init m :
   wf_type t = true -> agg_var t = false -> 0 <= lsize t ->
   0 <= off -> off + lsize t <= mlen m ->
-  safe (fill fuel t off init m) m.
+  safe off (off + lsize t) (fill fuel t off init m) m.
 Proof.
   intros. apply (P_all fuel fuel (le_n _) t off init m (lsize t)); auto. apply need_nonvar. assumption.
+Qed.
+
+(* ------------------------------------------------------------------ frame: what an initialiser does not name stays as it was *)
+
+Definition lookup_field (fs : list lfield) (k : Z) : option lfield :=
+  if k <? 0 then None else nth_error fs (Z.to_nat k).
+
+Section DictFrame.
+  Variable fs0 : list lfield.
+  Variable F : lfield -> pyval -> mem -> res mem.
+  Variable m0 : mem.
+  Variable off : Z.
+  Hypothesis Fext : forall f x m', In f fs0 -> mlen m' = mlen m0 ->
+    safe (off + lf_off f) (off + lf_off f + lsize (lf_type f)) (F f x m') m'.
+
+  Lemma dict_frame kv : forall m' m'', mlen m' = mlen m0 ->
+    struct_from_dict F fs0 kv m' = Ok m'' ->
+    mlen m'' = mlen m0 /\
+    forall i, 0 <= i ->
+      (forall k x f, In (k, x) kv -> lookup_field fs0 k = Some f ->
+         i < off + lf_off f \/ off + lf_off f + lsize (lf_type f) <= i) ->
+      byte m'' i = byte m' i.
+  Proof.
+    induction kv as [|[k x] kv IH]; intros m' m'' Hm; cbn [struct_from_dict].
+    - intros E. inversion E. subst m''. auto.
+    - fold (lookup_field fs0 k). destruct (lookup_field fs0 k) as [f|] eqn:El; [|discriminate].
+      assert (Hin : In f fs0).
+      { unfold lookup_field in El. destruct (k <? 0); [discriminate|]. eapply nth_error_In; exact El. }
+      destruct (Fext f x m' Hin Hm) as (_ & Hs).
+      destruct (F f x m') as [m1|e]; cbn [bind]; [|discriminate].
+      destruct (Hs m1 eq_refl) as (Hl1 & Hb1). intros E.
+      destruct (IH m1 m'' ltac:(lia) E) as (Hl2 & Hb2). split; [exact Hl2|].
+      intros i Hi Hout. rewrite Hb2.
+      + apply Hb1; [exact Hi|]. apply (Hout k x f); [left; reflexivity|exact El].
+      + exact Hi.
+      + intros k2 x2 f2 Hin2 El2. apply (Hout k2 x2 f2); [right; exact Hin2|exact El2].
+  Qed.
+End DictFrame.
+
+Lemma byte_zeros n i : byte (zeros n) i = 0.
+Proof.
+  unfold byte, zeros. destruct (Nat.lt_ge_cases (Z.to_nat i) (Z.to_nat n)).
+  - apply nth_repeat.
+  - apply nth_overflow. rewrite repeat_length. lia.
+Qed.
+
+(* ffi.new("struct T *", {name: value, ...}) on a fixed-size struct: every byte that is not inside
+   a named member (for a bit-field: inside its storage unit) is zero *)
+Theorem new_dict_unnamed_zero fuel size fs kv m :
+  wf_type (LAgg size false fs) = true ->
+  new_bytes fuel (NewPtr (LAgg size false fs)) (VDict kv) = Ok m ->
+  mlen m = size /\
+  forall i, 0 <= i ->
+    (forall k x f, In (k, x) kv -> lookup_field fs k = Some f ->
+       i < lf_off f \/ lf_off f + lsize (lf_type f) <= i) ->
+    byte m i = 0.
+Proof.
+  intros Hwf. unfold new_bytes. cbn [alloc_size lsize agg_var andb bind new_init new_target].
+  pose proof Hwf as Hwf2. cbn [wf_type] in Hwf2. rewrite andb_true_iff in Hwf2. destruct Hwf2 as (Hs0 & Hfs).
+  apply Z.leb_le in Hs0. apply wf_fields in Hfs. rewrite Forall_forall in Hfs.
+  destruct (Z.ltb_spec size 0); [lia|]. cbn [bind].
+  destruct (MAX_ALLOC <? size); [discriminate|].
+  destruct fuel as [|f]; [discriminate|]. cbn [fill struct_from_object]. intros E.
+  assert (Hz : mlen (zeros size) = size) by (rewrite mlen_zeros; lia).
+  destruct (dict_frame fs (fill_field (fill f) 0) (zeros size) 0) with (kv := kv) (m' := zeros size) (m'' := m)
+    as (Hl & Hb); auto.
+  - intros fld x m' Hin Hm'. pose proof (Hfs fld Hin) as Hw. pose proof Hw as (_ & Hoff & Hpl & _ & Hhv).
+    destruct (fill_field_safe f (fun f' _ => P_all f' f' (le_n _)) size false 0 m' fld x Hw (Z.le_refl _)) as (_ & S2).
+    destruct (is_flex (lf_type fld)) eqn:Efl; [destruct Hpl as (_ & Hc & _); discriminate|].
+    apply (S2 eq_refl (lsize (lf_type fld))); [|lia].
+    apply need_nonvar. destruct (agg_var (lf_type fld)); [discriminate (Hhv eq_refl)|reflexivity].
+  - split; [lia|]. intros i Hi Hout. rewrite Hb; [apply byte_zeros|exact Hi|].
+    intros k x fld Hin El. specialize (Hout k x fld Hin El). lia.
 Qed.
